@@ -1,11 +1,13 @@
 /-
 C08, part 11 — float metrics (`inf`, `-inf`, `nan`).  On finite metrics the float loop IS the integer loop of `Model/Route.lean`,
 so every route-selection theorem carries over; `inf` behaves as the largest metric; `nan` breaks "lowest metric on ties"
-(finding F-C08-r4-1, open): the full statement is kept visible, holds on the finite fragment (agreement with the integer
-model and its theorems) and is refuted by a three-entry table.
+(finding F-C08-r4-1, fixed by a validator on `RouteEntry`): `C08_float_best_spec` holds for every table, the total-order
+statement `C08_float_cheapest_constructible` for every table without `nan` (= every constructible one), and the three-entry
+counterexample remains as a statement about unvalidated entries.
 -/
 import PrimaiteModel.Model.RouteMetric
 import PrimaiteModel.Props.C08
+import PrimaiteModel.Gen.Forward
 namespace Primaite.Route
 
 def Route.toM (r : Route) : RouteM := { addr := r.addr, mask := r.mask, nextHop := r.nextHop, metric := .fin r.metric }
@@ -82,7 +84,8 @@ def nanA : RouteM := { addr := 0x0A010200#32, mask := 0xFFFFFF00#32, nextHop := 
 def nanB : RouteM := { addr := 0x0A010200#32, mask := 0xFFFFFF00#32, nextHop := 0x01010102#32, metric := .fin 0 }
 def nanC : RouteM := { addr := 0x0A010200#32, mask := 0xFFFFFF00#32, nextHop := 0x01010103#32, metric := .fin (-4) }
 
-/-- **`nan` breaks the tie-break** (F-C08-r4-1, open).  With Python's `<` the clause above is vacuous for a selected `nan` entry
+/-- **`nan` breaks the tie-break** for UNVALIDATED entries (F-C08-r4-1, fixed: `RouteEntry` now refuses a `nan` metric, so no
+constructible table contains one; the counterexample stays as the reason for the validator).  With Python's `<` the clause above is vacuous for a selected `nan` entry
 (nothing is `< nan`), so the statement is put on what IS comparable: every covering FINITE entry of the winning prefix is at
 least as expensive as the selected one, which is finite too.  `[nan, 0, -4]` refutes it: the `nan` entry is selected first
 (`prefix > -1`), becomes `lowest_metric`, and neither `0 < nan` nor `-4 < nan` holds — both cheaper entries are ignored. -/
@@ -96,6 +99,213 @@ theorem C08_float_cheapest_counterexample : ¬ C08_Full_float_cheapest_finite :=
   have := h [nanA, nanB, nanC] 0x0A010205#32 0 nanA (by decide) nanB (by decide) 0 rfl rfl ⟨24, by decide, by decide⟩
   obtain ⟨y, hy, _⟩ := this
   cases hy
+
+/-! ### the tie-break for every table, and as a total order for every CONSTRUCTIBLE table (no `nan`: `RouteEntry` refuses it) -/
+
+def CovM (dst : Ip) (r : RouteM) (p : Nat) : Prop := maskPrefix r.mask = some p ∧ inNet dst r.addr p = true
+
+/-- loop invariant of the float loop after the entries `pre`. -/
+def InvM (dst : Ip) (pre : List RouteM) (acc : AccM) : Prop :=
+  match acc.best with
+  | none => acc.longest = -1 ∧ ∀ r ∈ pre, ∀ p, ¬ CovM dst r p
+  | some (_, b) => ∃ p : Nat, CovM dst b p ∧ acc.longest = p ∧ acc.lowest = b.metric ∧ b ∈ pre ∧
+      ∀ r ∈ pre, ∀ p', CovM dst r p' → p' ≤ p ∧ (p' = p → r.metric.lt b.metric = false)
+
+/-- Python's `<` is transitive where it holds at all (a `nan` never takes part in a true comparison). -/
+theorem Metric.lt_trans {a b c : Metric} (h1 : a.lt b = true) (h2 : b.lt c = true) : a.lt c = true := by
+  cases a <;> cases b <;> cases c <;> simp [Metric.lt] at h1 h2 ⊢ <;> omega
+
+theorem iterM_inv (dst : Ip) (pre : List RouteM) (acc : AccM) (i : Nat) (r : RouteM) (acc' : AccM)
+    (hinv : InvM dst pre acc) (h : iterM dst acc i r = some acc') : InvM dst (pre ++ [r]) acc' := by
+  unfold iterM at h
+  cases hm : maskPrefix r.mask with
+  | none => rw [hm] at h; cases h
+  | some p =>
+    rw [hm] at h
+    simp only at h
+    by_cases hin : inNet dst r.addr p = true
+    · simp only [hin, if_true] at h
+      have hcov : CovM dst r p := ⟨hm, hin⟩
+      by_cases hb : (decide ((p : Int) > acc.longest) || ((p : Int) == acc.longest && r.metric.lt acc.lowest)) = true
+      · simp only [hb, if_true, Option.some.injEq] at h
+        subst h
+        refine ⟨p, hcov, rfl, rfl, by simp, ?_⟩
+        intro r' hr' p' hc'
+        rcases List.mem_append.1 hr' with hr' | hr'
+        · -- an earlier entry
+          unfold InvM at hinv
+          cases hbest : acc.best with
+          | none =>
+            rw [hbest] at hinv
+            exact absurd hc' (hinv.2 r' hr' p')
+          | some x =>
+            obtain ⟨j, b⟩ := x
+            rw [hbest] at hinv
+            obtain ⟨q, hcb, hl, hlow, _, hall⟩ := hinv
+            obtain ⟨hle, heq⟩ := hall r' hr' p' hc'
+            simp only [Bool.or_eq_true, decide_eq_true_eq, Bool.and_eq_true, beq_iff_eq] at hb
+            rcases hb with hb | ⟨hb1, hb2⟩
+            · rw [hl] at hb
+              have : q < p := by exact_mod_cast hb
+              exact ⟨by omega, fun h => by omega⟩
+            · rw [hl] at hb1
+              have hqp : p = q := by exact_mod_cast hb1
+              subst hqp
+              refine ⟨hle, fun h => ?_⟩
+              have h1 := heq h
+              rw [hlow] at hb2
+              cases hlt : r'.metric.lt r.metric with
+              | false => rfl
+              | true => rw [Metric.lt_trans hlt hb2] at h1; cases h1
+        · have : r' = r := by simpa using hr'
+          subst this
+          obtain ⟨h1, _⟩ := hc'
+          rw [hm] at h1
+          have : p = p' := by simpa using h1
+          subst this
+          exact ⟨Nat.le_refl _, fun _ => by cases hx : r'.metric <;> simp [Metric.lt]⟩
+      · have hb' : (decide ((p : Int) > acc.longest) || ((p : Int) == acc.longest && r.metric.lt acc.lowest)) = false := by simpa using hb
+        simp only [hb', Bool.false_eq_true, if_false, Option.some.injEq] at h
+        subst h
+        simp only [Bool.or_eq_false_iff, decide_eq_false_iff_not, Bool.and_eq_false_iff] at hb'
+        unfold InvM at hinv ⊢
+        cases hbest : acc.best with
+        | none =>
+          rw [hbest] at hinv
+          exfalso
+          have := hb'.1
+          rw [hinv.1] at this
+          omega
+        | some x =>
+          obtain ⟨j, b⟩ := x
+          rw [hbest] at hinv
+          simp only
+          obtain ⟨q, hcb, hl, hlow, hmem, hall⟩ := hinv
+          refine ⟨q, hcb, hl, hlow, List.mem_append_left _ hmem, ?_⟩
+          intro r' hr' p' hc'
+          rcases List.mem_append.1 hr' with hr' | hr'
+          · exact hall r' hr' p' hc'
+          · have : r' = r := by simpa using hr'
+            subst this
+            obtain ⟨h1, _⟩ := hc'
+            rw [hm] at h1
+            have hpp : p = p' := by simpa using h1
+            subst hpp
+            have hle : ¬ ((p : Int) > q) := by rw [← hl]; exact hb'.1
+            refine ⟨by omega, fun h => ?_⟩
+            subst h
+            rcases hb'.2 with h2 | h2
+            · rw [hl] at h2; simp at h2
+            · rw [← hlow]; exact h2
+    · have hin' : inNet dst r.addr p = false := by simpa using hin
+      simp only [hin', Bool.false_eq_true, if_false, Option.some.injEq] at h
+      subst h
+      unfold InvM at hinv ⊢
+      cases hbest : acc.best with
+      | none =>
+        rw [hbest] at hinv
+        refine ⟨hinv.1, ?_⟩
+        intro r' hr' p' hc'
+        rcases List.mem_append.1 hr' with hr' | hr'
+        · exact hinv.2 r' hr' p' hc'
+        · have : r' = r := by simpa using hr'
+          subst this
+          obtain ⟨h1, h2⟩ := hc'
+          rw [hm] at h1
+          have : p = p' := by simpa using h1
+          subst this
+          rw [hin'] at h2; cases h2
+      | some x =>
+        obtain ⟨j, b⟩ := x
+        rw [hbest] at hinv
+        simp only
+        obtain ⟨q, hcb, hl, hlow, hmem, hall⟩ := hinv
+        refine ⟨q, hcb, hl, hlow, List.mem_append_left _ hmem, ?_⟩
+        intro r' hr' p' hc'
+        rcases List.mem_append.1 hr' with hr' | hr'
+        · exact hall r' hr' p' hc'
+        · have : r' = r := by simpa using hr'
+          subst this
+          obtain ⟨h1, h2⟩ := hc'
+          rw [hm] at h1
+          have : p = p' := by simpa using h1
+          subst this
+          rw [hin'] at h2; cases h2
+
+theorem scanM_inv (dst : Ip) (rs : List RouteM) : ∀ (pre : List RouteM) (i : Nat) (acc acc' : AccM),
+    InvM dst pre acc → scanM dst rs i acc = some acc' → InvM dst (pre ++ rs) acc' := by
+  induction rs with
+  | nil => intro pre i acc acc' h hs; simp only [scanM, Option.some.injEq] at hs; subst hs; simpa using h
+  | cons r rs ih =>
+    intro pre i acc acc' h hs
+    simp only [scanM] at hs
+    cases hi : iterM dst acc i r with
+    | none => rw [hi] at hs; cases hs
+    | some a1 =>
+      rw [hi] at hs
+      have := ih (pre ++ [r]) (i + 1) a1 acc' (iterM_inv dst pre acc i r a1 h hi) hs
+      simpa using this
+
+/-- **Longest prefix, then no strictly cheaper entry — for EVERY table of float metrics** (`nan` included, unconditional):
+the selected entry covers the destination; no covering entry has a longer prefix; no covering entry of the same prefix is
+strictly cheaper in Python's `<`. -/
+theorem C08_float_best_spec (rs : List RouteM) (dst : Ip) (i : Nat) (r : RouteM) (h : findBestM rs dst = some (some (i, r))) :
+    ∃ p, CovM dst r p ∧ r ∈ rs ∧ ∀ r' ∈ rs, ∀ p', CovM dst r' p' → p' ≤ p ∧ (p' = p → r'.metric.lt r.metric = false) := by
+  unfold findBestM at h
+  cases hs : scanM dst rs 0 {} with
+  | none => rw [hs] at h; cases h
+  | some acc =>
+    rw [hs] at h
+    simp only [Option.map_some, Option.some.injEq] at h
+    have hinv := scanM_inv dst rs [] 0 {} acc (by unfold InvM; exact ⟨rfl, by intro r hr; cases hr⟩) hs
+    unfold InvM at hinv
+    rw [h] at hinv
+    simp only [List.nil_append] at hinv
+    obtain ⟨p, hc, _, _, hmem, hall⟩ := hinv
+    exact ⟨p, hc, hmem, hall⟩
+
+/-- the total order of float metrics without `nan`: `-inf ≤ finite ≤ inf`. -/
+def Metric.le : Metric → Metric → Bool
+  | .ninf, _ => true
+  | _, .inf => true
+  | .fin a, .fin b => decide (a ≤ b)
+  | _, _ => false
+
+theorem Metric.le_of_not_lt {a b : Metric} (ha : a ≠ .nan) (hb : b ≠ .nan) (h : b.lt a = false) : a.le b = true := by
+  cases a <;> cases b <;> simp [Metric.lt, Metric.le] at h ha hb ⊢ <;> omega
+
+/-- **Lowest metric on ties, for every CONSTRUCTIBLE table** (metrics are never `nan`: `RouteEntry` refuses it, Gen obligation
+`routeMetricRejectsNaN`; `inf` and `-inf` allowed): the selected entry's metric is `≤` the metric of every covering entry of
+the same prefix, in the total order `-inf ≤ finite ≤ inf`. -/
+theorem C08_float_cheapest_constructible (rs : List RouteM) (hnn : ∀ r ∈ rs, r.metric ≠ .nan) (dst : Ip) (i : Nat) (r : RouteM)
+    (h : findBestM rs dst = some (some (i, r))) :
+    ∃ p, CovM dst r p ∧ ∀ r' ∈ rs, CovM dst r' p → r.metric.le r'.metric = true := by
+  obtain ⟨p, hc, hmem, hall⟩ := C08_float_best_spec rs dst i r h
+  exact ⟨p, hc, fun r' hr' hc' => Metric.le_of_not_lt (hnn r hmem) (hnn r' hr') ((hall r' hr' p hc').2 rfl)⟩
+
+/-- … in particular the finite statement that `nan` refuted holds for every constructible table without `-inf`. -/
+theorem C08_float_cheapest_finite_constructible (rs : List RouteM) (hnn : ∀ r ∈ rs, r.metric ≠ .nan ∧ r.metric ≠ .ninf)
+    (dst : Ip) (i : Nat) (r : RouteM) (h : findBestM rs dst = some (some (i, r))) :
+    ∀ r' ∈ rs, ∀ x, r'.metric = .fin x → maskPrefix r'.mask = maskPrefix r.mask →
+      (∃ p, maskPrefix r'.mask = some p ∧ inNet dst r'.addr p = true) → ∃ y, r.metric = .fin y ∧ y ≤ x := by
+  intro r' hr' x hx hmask ⟨p', hm', hin'⟩
+  obtain ⟨p, hc, hmem, hall⟩ := C08_float_best_spec rs dst i r h
+  have hpp : p' = p := by
+    have := hc.1
+    rw [← hmask, hm'] at this
+    simpa using this
+  subst hpp
+  have hlt := (hall r' hr' p' ⟨hm', hin'⟩).2 rfl
+  have hr := hnn r hmem
+  rw [hx] at hlt
+  cases hmr : r.metric with
+  | fin y => exact ⟨y, rfl, by rw [hmr] at hlt; simpa [Metric.lt] using hlt⟩
+  | inf => rw [hmr] at hlt; simp [Metric.lt] at hlt
+  | ninf => exact absurd hmr hr.2
+  | nan => exact absurd hmr hr.1
+
+/-- Gen obligation: `RouteEntry` has `@field_validator("metric")` raising `ValueError` when `v != v`. -/
+theorem C08_gen_metric_validated : Gen.Forward.routeMetricRejectsNaN = true := by decide
 
 /-- `inf` is harmless: it is the largest metric, an `inf` entry is selected only when nothing cheaper of its prefix exists
 (evaluated on the covering cases; the general statement for `nan`-free tables is not proved). -/
